@@ -577,6 +577,72 @@ func (e *Engine) Discharge(results []*FuncResult, so SolveOpts) {
 // All are valid facts about the mathematical sum (the last one by induction on n, which the solver cannot do itself); they are
 // listed once in the assumption ledger as the summation lemma schema.
 func (e *Engine) sumLemmas(terms []*Term) []*Term {
+	return append(e.sumLemmas0(terms), e.contentLemmas(terms)...)
+}
+
+// contentFns are uninterpreted functions of a byte range (row, offset, length) that stand for a value determined by the range's
+// content: the integer SetBytes builds, the string a conversion builds. For every pair of occurring applications the generator
+// adds the congruence fact: equal length and pointwise equal bytes give equal values.
+var contentFns = map[string]bool{"bytes2big": true, "bytes2str": true}
+
+func (e *Engine) contentLemmas(terms []*Term) []*Term {
+	tb := e.tb
+	seen := map[*Term]bool{}
+	apps := map[string][]*Term{}
+	var walk func(t *Term) bool
+	walk = func(t *Term) bool { // reports whether t contains a bound variable
+		if t == nil {
+			return false
+		}
+		if t.Op == "bound" {
+			return true
+		}
+		if seen[t] {
+			return false
+		}
+		seen[t] = true
+		hasBound := false
+		for _, a := range t.Args {
+			if walk(a) {
+				hasBound = true
+			}
+		}
+		if t.Op == "app" && (contentFns[t.Name] || strings.HasPrefix(t.Name, "pack_")) && len(t.Args) == 3 && len(tb.FreeBound(t)) == 0 {
+			apps[t.Name] = append(apps[t.Name], t)
+		}
+		return hasBound
+	}
+	for _, t := range terms {
+		walk(t)
+	}
+	var out []*Term
+	var names []string
+	for n := range apps {
+		names = append(names, n)
+	}
+	sort.Strings(names)
+	for _, n := range names {
+		all := apps[n]
+		if len(all) > 12 {
+			all = all[:12]
+		}
+		for i := 0; i < len(all); i++ {
+			for j := i + 1; j < len(all); j++ {
+				a, b := all[i], all[j]
+				k := tb.BoundVar("kc", SInt)
+				same := tb.Forall([]*Term{k}, tb.Implies(tb.And(tb.Le(tb.Int(0), k), tb.Lt(k, a.Args[2])),
+					tb.Eq(tb.Select(a.Args[0], tb.Add(a.Args[1], k)), tb.Select(b.Args[0], tb.Add(b.Args[1], k)))))
+				out = append(out, tb.Implies(tb.And(tb.Eq(a.Args[2], b.Args[2]), same), tb.Eq(a, b)))
+			}
+		}
+	}
+	if len(out) > 0 {
+		e.Assumed["content lemma schema: a value built from a byte range (SetBytes, string conversion) depends only on the range's length and bytes (congruence instantiated for every pair of occurring ranges)"] = true
+	}
+	return out
+}
+
+func (e *Engine) sumLemmas0(terms []*Term) []*Term {
 	tb := e.tb
 	if tb.SumDefs == nil {
 		return nil
